@@ -46,7 +46,14 @@ def _c07_nontrivial(r):
     if parts[0] == "layout": return True
     return parts[0] == "write" and parts[2].strip("0-") != ""
 
+def _c08_nontrivial(r):
+    parts = r.split()
+    if parts[0] == "oracle": return False
+    if parts[0] == "parse": return parts[1] != "0" and not parts[2].startswith("0:")
+    return True
+
 NONTRIVIAL = {
+    "C08": _c08_nontrivial,
     "C07": _c07_nontrivial,
     "C12": _c12_nontrivial,
     "C06": _c06_nontrivial,
@@ -61,6 +68,18 @@ def count_nontrivial(pid, reqs):
     return len(seen)
 
 PROPS = {
+    "C08": {
+        "lean": ["DM.Props.C08"],
+        "gens": ["c08"],
+        "level": "proof",
+        "release": True,
+        "rule": "cases: rendered layout of every size with tagged content (exhaustive over all pixels of all 48 sizes), valid renderings of random contents, every single-module deviation of a valid rendering (exhaustive for sizes up to 700 modules, sampled with all fixed-module classes otherwise; thorough: exhaustive for all sizes), constant arrays of all shapes up to 40x40, width 0, random arrays and widths, framed arrays with random interior; each parse also carries the property's own oracle (accepted => re-rendering reproduces the array); non-trivial = distinct non-degenerate parse/deviation/layout requests",
+        "explanation": "parse_render (for every size and every content with the size's fixed corner pattern, parsing the rendering returns the content and the size) and render_parse (whatever array the parser accepts is bit for bit the rendering of what it returns, with matching width) are kernel-checked theorems about the models of bitmap() and try_from_bits(); rejection of width 0, non-multiple lengths and unknown dimensions are theorems; layout_eq_spec ties the rendered fixed modules and content cells to the standard's region arithmetic (DM/Spec/FinderSpec.lean). Per size the kernel evaluates a certificate (cells in render order = cells in parse order = specification cells, injective, in range; every check position is a fixed module with the rendered constant; checks and cells cover every pixel).",
+        "level_text": "Proof: both directions of the property and the three rejection rules are kernel-checked theorems over the models, for all sizes, all contents and all pixel arrays; the models are tied to the code by the exhaustive tagged layout of every size and by parsing every single-module deviation.",
+        "level_note": "Trusted: Lean kernel, standard axioms, DM/Spec/FinderSpec.lean as the definition of the finder/alignment layout, the correspondence harness; the parser model represents the data-oblivious loops of try_from_bits as check/take lists (error variant fidelity is checked by correspondence, not proved).",
+        "technique": "Lean 4 theorems (per-size kernel-evaluated certificate + lift to all contents / all pixel arrays) with model/implementation correspondence",
+        "assumptions": [],
+    },
     "C07": {
         "lean": ["DM.Props.C07"],
         "gens": ["c07"],
